@@ -14,7 +14,7 @@ from mc import enumerate as EN
 from mc import runner as RU
 from mc import spec as S
 
-NODE_DEFECTS = ['not_class', 'no_base', 'no_process', 'unannotated', 'unannotated_all', 'generic_unbound']
+NODE_DEFECTS = ['not_class', 'no_base', 'no_process', 'unannotated', 'unannotated_all', 'unannotated_kwonly', 'unannotated_varkw', 'generic_unbound']
 
 
 def expected_errors(defect: str) -> t.Tuple[str, ...]:
@@ -24,6 +24,8 @@ def expected_errors(defect: str) -> t.Tuple[str, ...]:
         'no_process': ('RunMethodExpectedError',),
         'unannotated': ('UndefinedParamAnnotation', 'UndefinedAnnotation'),
         'unannotated_all': ('UndefinedAnnotation', 'UndefinedParamAnnotation'),
+        'unannotated_kwonly': ('UndefinedParamAnnotation', 'UndefinedAnnotation'),
+        'unannotated_varkw': ('UndefinedParamAnnotation', 'UndefinedAnnotation'),
         'generic_unbound': ('NonRedefinedGenericTypeError',),
         'not_recurrent': ('IncorrectRecurrentMixinClass',),
         'no_additional_data': ('IncorrectParamsRecurrentNode',),
